@@ -993,8 +993,8 @@ func (fc *FuncCtx) debugName(in ssa.Instruction, vars map[string]TV) {
 		if obj == nil {
 			return
 		}
-		if _, isVar := obj.(*types.Var); !isVar {
-			return
+		if vv, isVar := obj.(*types.Var); !isVar || vv.IsField() {
+			return // a selector expression x.f refers to the field object: not a local variable
 		}
 		tv, ok := fc.val[d.X]
 		if !ok {
